@@ -9,6 +9,7 @@ import Driver.CombinerOps
 import Driver.CodingOps
 import Driver.SplitOps
 import Driver.SmsOps
+import Driver.ConnOps
 
 open Driver
 
@@ -39,7 +40,10 @@ def step (line : String) : String :=
                 | none =>
                   match smsSpecOp op args with
                   | some r => r
-                  | none => "bad-op"
+                  | none =>
+                    match connOp op args with
+                    | some r => r
+                    | none => "bad-op"
 
 partial def loop (h : IO.FS.Stream) (out : IO.FS.Stream) : IO Unit := do
   let line ← h.getLine
